@@ -8,6 +8,8 @@
 (*    k: "merge" | "remerge" | "reload" | "idle" | "observe"               *)
 (*    intact        : every live message object still serialises as parsed *)
 (*    expose_intact : ... and still exposes the same targets/sources       *)
+(*    unshared      : no Element object is reachable from two of the live   *)
+(*                    trees (running orders, messages): MosAlias!NoSharedNodes *)
 (*    acc_eq        : (reload) the library's accessors agree between the   *)
 (*                    live object and the object read back                 *)
 (* recorded at the return of the public call (error path included).        *)
@@ -35,6 +37,7 @@ StepFailing(ev) ==
   CASE ev.k \in {"merge", "remerge"} ->
          Failing(ev) \o (IF ev.intact THEN <<>> ELSE <<"msg_intact">>)
                      \o (IF ev.expose_intact THEN <<>> ELSE <<"msg_expose">>)
+                     \o (IF ev.unshared THEN <<>> ELSE <<"msg_unshared">>)
     [] ev.k = "reload" ->
          (IF ev.status = "ok" /\ ev.post = ev.pre /\ ev.ser_eq /\ ev.acc_eq THEN <<>> ELSE <<"reload_identity">>)
          \o (IF ev.status = "ok" /\ ev.cls = "RunningOrder" /\ ev.completed_eq
